@@ -131,7 +131,7 @@ impl Scenario for Crash {
     }
     fn runs(&self, tier: Tier) -> u64 {
         match tier {
-            Tier::Quick => 2_400,
+            Tier::Quick => 6_000,
             Tier::Thorough => 60_000,
         }
     }
